@@ -4,6 +4,8 @@ import (
 	"bufio"
 	"fmt"
 	"strings"
+
+	"github.com/cloudspannerecosystem/memefish/token"
 )
 
 // specRun renders the implementation's token stream in the format of the reference lexer (Spec.Lexical).
@@ -48,6 +50,21 @@ func literalCases(emit func(string)) {
 	}
 }
 
+// keywordCases: every reserved word in three letter cases, alone, with identifier characters glued before / after it (then it is
+// an identifier, however long), cut by one letter, doubled, and after a dot (then it is an identifier)
+func keywordCases(emit func(string)) {
+	for _, k := range token.Keywords {
+		u := string(k)
+		for _, w := range []string{u, strings.ToLower(u), u[:1] + strings.ToLower(u[1:])} {
+			for _, v := range []string{w, w + "_", w + "_count", w + "1", w + "x", w + "X", "x" + w, "_" + w, w[:len(w)-1], w + w, "a." + w, w + ".a", "`" + w + "`", "@" + w} {
+				emit(v)
+			}
+			emit(w + " 1")
+			emit("1 " + w + "x")
+		}
+	}
+}
+
 func specInputs(tier string, r *rng, each func(string)) {
 	n24, n12, nrand := 3, 4, 8000
 	if tier == "thorough" {
@@ -57,6 +74,7 @@ func specInputs(tier string, r *rng, each func(string)) {
 	enumStrings(alpha12, n12, func(b []byte) { each(string(b)) })
 	focusedStrings(tier, func(b []byte) { each(string(b)) })
 	literalCases(each)
+	keywordCases(each)
 	for _, s := range corpusStrings() {
 		each(s)
 	}
